@@ -34,10 +34,12 @@ Proof.
     + now apply out_is_eq.
     + now apply bools_eqb_eq.
     + intros a. rewrite forallb_forall in Hw, Hv.
-      destruct (in_dec N.eq_dec a wl) as [I|NI]; [exact (Hw a I)|].
-      destruct (in_dec N.eq_dec a (1 :: vars_words (b_vars b))) as [J|NJ]; [exact (Hv a J)|].
+      destruct (in_dec N.eq_dec a (0 :: 1 :: vars_words (b_vars b))) as [J|NJ]; [exact (Hv a J)|].
+      assert (NJ' : ~ In a (1 :: vars_words (b_vars b))) by (intros X; apply NJ; right; exact X).
+      destruct (in_dec N.eq_dec a wl) as [I|NI].
+      { specialize (Hw a I). destruct a; [exfalso; apply NJ; left; reflexivity|exact Hw]. }
       unfold mget0. rewrite (F a NI). cbn [m init].
-      rewrite (start_mem_frame ww img b vs vs' a NJ). apply eq_mod_refl.
+      rewrite (start_mem_frame ww img b vs vs' a NJ'). apply eq_mod_refl.
   - destruct (run_pow ww sg (b_depth b) (init (start_mem ww img b vs) (bytes_bits inb)) []) as [s wl|c s wl] eqn:R;
       [discriminate|].
     destruct c; try discriminate.
